@@ -29,12 +29,57 @@ def configs(rnd, count, n_max=12):
     return out
 
 
+def apalache_unbounded(ctx):
+    """AnnealInd.tla: the plateau counter for ARBITRARY parameters; Apalache discharges the inductive invariant (initial states,
+    inductive step) and its consequences (temperature exactly one after the annealing phase, never below one, never rising).  A
+    deliberately false invariant must be refuted (the proof obligations are not vacuous).  If Apalache cannot be run in time the
+    bounded TLC result above stands alone (logged, not a failure)."""
+    import shutil
+    import subprocess
+    import tempfile
+    exe = shutil.which("apalache-mc")
+    if not exe:
+        ctx.log("apalache-mc not found: unbounded check of the annealing counter skipped")
+        return
+    spec = os.path.join(tlc.SPECS, "AnnealInd.tla")
+    out = tempfile.mkdtemp(prefix="verif_apa_")
+    obligations = [("initial states satisfy IndInv", ["--init=Init", "--inv=IndInv", "--length=0"], "NoError"),
+                   ("IndInv is inductive", ["--init=IndInit", "--inv=IndInv", "--length=1"], "NoError"),
+                   ("IndInv implies Safe", ["--init=IndInit", "--inv=Safe", "--length=0"], "NoError"),
+                   ("a false invariant is refuted", ["--init=IndInit", "--inv=Bogus", "--length=0"], "Error")]
+    results = {}
+    try:
+        for name, args, want in obligations:
+            try:
+                p = subprocess.run([exe, "check", *args, f"--out-dir={out}", spec], capture_output=True, text=True, timeout=600, cwd=out)
+            except subprocess.TimeoutExpired:
+                ctx.log(f"Apalache timed out on '{name}': unbounded check incomplete (the bounded TLC result stands)")
+                results[name] = "timeout"
+                continue
+            outcome = "NoError" if "The outcome is: NoError" in p.stdout else ("Error" if "The outcome is: Error" in p.stdout else "unknown")
+            results[name] = outcome
+            if outcome == "unknown":
+                ctx.log(f"Apalache gave no verdict on '{name}' (exit {p.returncode}): {p.stdout[-300:]!r}")
+            elif outcome != want:
+                if want == "NoError":
+                    ctx.violation({"check": "design_unbounded", "obligation": name}, f"AnnealInd.tla: {name} FAILS (Apalache: {outcome})",
+                                  replay=p.stdout[-3000:])
+                else:
+                    raise tlc.MachineryError("Apalache accepted a deliberately false invariant of AnnealInd.tla")
+    finally:
+        shutil.rmtree(out, ignore_errors=True)
+    ctx.extra["apalache_annealind"] = results
+    ctx.log(f"Apalache, AnnealInd.tla (arbitrary n_iter / annealing length / plateaus / T0 > 1): {results}")
+
+
 def run(ctx):
     q = ctx.quick
     ctx.rule = ("TLC explores every annealing configuration (n_iter <= 12, annealing iterations as count 0..12 or fraction, "
                 "1..6 plateaus, initial temperature in {1/2,1,3/2,5,10}) and every iteration of Saem.tla with the "
                 "temperature as an exact rational (TempStart, TempFloor, TempMonotone, TempOnlyAtBoundaries, "
-                "TempOneAfterAnnealing, NoAnnealingIsOne, AcceptedCompletes, Termination); sampled configurations are run "
+                "TempOneAfterAnnealing, NoAnnealingIsOne, DecrementsClosedForm, AcceptedCompletes, Termination); for arbitrary parameters "
+                "Apalache discharges the inductive invariant of AnnealInd.tla (decrements = floor(min(k, nAnn) / period)) and its "
+                "consequences (temperature exactly one after the annealing phase, never below one, never rising); sampled configurations are run "
                 "as real fits (a quarter of them as two consecutive runs of one algorithm object), the temperature after every iteration is validated by TLC against SaemTrace.tla "
                 "(equal to the rational within 8*P ulps, literally 1.0 when the specification says 1); proposal scales: "
                 "Sampler.tla StdEnvelope + recorded sampler adaptation (see C03 driver). "
@@ -46,6 +91,7 @@ def run(ctx):
     ctx.log(f"TLC MC_Saem_anneal: {res.distinct} states, violated={res.violated} ({res.wall:.1f}s)")
     if res.violated:
         ctx.violation({"check": "design", "invariant": res.violated[0]}, f"Saem.tla violates {res.violated}", replay=res.trace_text[:4000])
+    apalache_unbounded(ctx)
     rnd = random.Random(ctx.seed)
     kinds = ["logistic_scalar_src1", "linear_diag_src1"] if q else ["logistic_scalar_src1", "linear_diag_src1", "joint_nosrc", "shared_speed_src1"]
     per_kind = 30 if q else 250
